@@ -95,6 +95,7 @@ func (r *run) passHistory(stream string, expiry int64, ops []PassOp) {
 }
 
 func (r *run) passcodes() {
+	r.roleTokens()
 	const sec = int64(time.Second)
 	const min = 60 * sec
 	T := int64(1700000000) * sec
@@ -193,6 +194,63 @@ func (r *run) passcodes() {
 		h = append(h, try(1, T+int64(k), 3))
 		r.passHistory("passcode", 10*min, h)
 	}
+}
+
+// roleTokens: Roles.VerifySelfToken end to end (passcode setup of the identity,
+// then self tokens): implementation-only expectations.
+func (r *run) roleTokens() {
+	initRSA()
+	const sec = int64(time.Second)
+	T := int64(1700000000)
+	const name, host = "h8liu", "shanhu.io"
+	b := roles.New(pisces.NewMemTables())
+	b.SetHostDomain(host)
+	if err := b.New(name, time.Unix(T, 0)); err != nil {
+		panic(err)
+	}
+	if err := b.New("other", time.Unix(T, 0)); err != nil {
+		panic(err)
+	}
+	ks := []cardKey{{ID: "k0", Type: "ssh-rsa", Alg: "RS256", Key: fixedKeys[0].Pub, NVA: T + 3600}}
+	core := coreOf(ks, []string{fixedKeys[0].Pri}, T*sec)
+	tok, err := identity.SignSelf(ctx, core, name, host, time.Unix(T, 0))
+	if err != nil {
+		panic(err)
+	}
+	emit := func(what string, role, token string, at int64, expect bool) {
+		c := &Case{Stream: "roles", Op: "roleverify", Note: what, User: hx16([]byte(role)), Now: z(at * sec),
+			Tok: hx16([]byte(token)), SigOK: expect}
+		var e error
+		c.Obs.Crash = guard(func() { _, e = b.VerifySelfToken(ctx, role, token, time.Unix(at, 0)) })
+		c.Obs.Ok = e == nil
+		if e != nil {
+			c.Obs.ErrText = e.Error()
+		}
+		r.emit(c)
+	}
+	emit("no identity set up yet", name, tok, T+1, false)
+	code, err := b.NewPassCode(name, time.Unix(T, 0))
+	if err != nil {
+		panic(err)
+	}
+	if err := b.SetupWithCode(name, cardOf(ks), code.Code, time.Unix(T, 0)); err != nil {
+		panic(err)
+	}
+	emit("identity set up", name, tok, T+1, true)
+	emit("token of another role", "other", tok, T+1, false)
+	emit("unknown role", "nobody", tok, T+1, false)
+	emit("expired token", name, tok, T+301, false)
+	emit("token plus line break", name, tok+"\n", T+1, false)
+	if err := b.Disable(name); err != nil {
+		panic(err)
+	}
+	emit("role disabled", name, tok, T+1, false)
+	if err := b.Enable(name); err != nil {
+		panic(err)
+	}
+	emit("role enabled again", name, tok, T+1, true)
+	b.SetHostDomain("evil.example")
+	emit("other host domain", name, tok, T+1, false)
 }
 
 // fixIssueNumbers renumbers "the n-th issued code" so that it counts only the
